@@ -937,6 +937,11 @@ def Region.valid : Region α → Bool
   | .wedge .. => true
   | .genprism .. => true
 
+/-- build of a region against a unit builder that already holds `store` (a second object of the
+    same unit: the surface inserter is shared, the bounding zones and the literal list are new) -/
+def Region.buildIn (store : SurfStore α) (tol : Tol α) (tra : Xform α) (r : Region α) : BState α :=
+  (r.ops tol).foldl (fun st op => st.apply tol tra op) { (BState.init : BState α) with store := store }
+
 /-- standalone build of a region against a fresh unit builder -/
 def Region.build (tol : Tol α) (tra : Xform α) (r : Region α) : BState α :=
   runOps tol tra (r.ops tol)
